@@ -16,19 +16,27 @@ KINDS = ('delegate', 'custom', 'unsupported')
 
 
 def export_cases(ctx):
-    """TLC model-checks the case family and prints every realizable case with the predicted outcome."""
-    cases, r = vlib.generate(ctx, 'OciFuncsMC.tla', 'OciFuncsMC.cfg', workers=1, timeout=300)
-    if not r['ok'] or 'distinct' not in r:
-        raise vlib.Machinery('model check OciFuncsMC.cfg did not pass:\n' + vlib.tlc_errors(r['out']))
-    ctx.cov['states'] += r['distinct']
-    ctx.cov['transitions'] += r['generated']
-    ctx.cov['model_runs'].append(dict(module='OciFuncsMC.tla', cfg='OciFuncsMC.cfg', distinct=r['distinct'], generated=r['generated'],
-                                      depth=r.get('depth'), wall_s=round(r['wall'], 1),
-                                      what='18 methods x {each field alone, all but one, all, none} x constructor x nil/non-nil table: '
-                                           'OwnFieldOnly (pairwise over the family, and per case), totality, nil = empty, one yield; '
-                                           '%d cases exported' % len(cases)))
-    if not cases:
-        raise vlib.Machinery('TLC exported no cases:\n' + vlib.tlc_errors(r['out']))
+    """TLC model-checks the case families and prints every realizable case with the predicted outcome:
+    the field-set family with generated arguments, and the argument-profile family (special values)."""
+    cases = []
+    for cfg, what in (('OciFuncsMC.cfg', '18 methods x {each field alone, all but one, all, none} x constructor x nil/non-nil table: '
+                                         'OwnFieldOnly (pairwise over the family, and per case), totality, nil = empty, one yield'),
+                      ('OciFuncsMC_args.cfg', '18 methods x {each field alone, all, none, all but the own} x constructor (and the nil table) x the '
+                                              'product of special argument values per parameter (156 profiles): outcome independent of arguments')):
+        cs, r = vlib.generate(ctx, 'OciFuncsMC.tla', cfg, workers=1, timeout=300)
+        if not r['ok'] or 'distinct' not in r:
+            raise vlib.Machinery('model check %s did not pass:\n' % cfg + vlib.tlc_errors(r['out']))
+        if not cs:
+            raise vlib.Machinery('TLC exported no cases from %s:\n' % cfg + vlib.tlc_errors(r['out']))
+        ctx.cov['states'] += r['distinct']
+        ctx.cov['transitions'] += r['generated']
+        ctx.cov['model_runs'].append(dict(module='OciFuncsMC.tla', cfg=cfg, distinct=r['distinct'], generated=r['generated'],
+                                          depth=r.get('depth'), wall_s=round(r['wall'], 1), what='%s; %d cases exported' % (what, len(cs))))
+        for c in cs:
+            c.setdefault('av', [])
+        cases += cs
+    if not any(c['av'] for c in cases):
+        raise vlib.Machinery('no case with special argument values was exported')
     # every (method, outcome kind) must be there, or the batch proves nothing about it
     seen = {(c['m'], c['pred']) for c in cases}
     methods = sorted({c['m'] for c in cases})
@@ -80,11 +88,11 @@ def count(ctx, trace):
 
 
 def brief(e):
-    keep = ('op', 'id', 'm', 'F', 'custom', 'nilrecv', 'sret', 'pred', 'passed', 'calls', 'ctor', 'got', 'err', 'yields', 'panic', 'msg')
+    keep = ('op', 'id', 'm', 'F', 'custom', 'nilrecv', 'sret', 'pred', 'av', 'passed', 'calls', 'ctor', 'got', 'err', 'yields', 'panic', 'msg')
     return {k: e[k] for k in keep if k in e}
 
 
-def samples(trace, want=4):
+def samples(trace, want=6):
     out = []
     with open(trace) as f:
         f.readline()
@@ -93,7 +101,7 @@ def samples(trace, want=4):
             e = json.loads(l)
             if e['op'] == 'reset':
                 continue
-            key = (e.get('pred'), e['m'] in ('Repositories', 'Tags', 'Referrers'))
+            key = (e.get('pred'), e['m'] in ('Repositories', 'Tags', 'Referrers'), bool(e.get('av')))
             if key in seen:
                 continue
             seen.add(key)
@@ -111,7 +119,7 @@ def name_observations(ctx, trace):
     for s in scen:
         if len(s) == 2:
             e = json.loads(s[1])
-            if e['op'] == 'call' and e['F'] == []:
+            if e['op'] == 'call' and e['F'] == [] and not e['av']:
                 sel.append(s)
     obs = []
     p = os.path.join(ctx.sub('strictname'), 'strict.ndjson')
@@ -221,7 +229,7 @@ def run(ctx):
         i += 1
     for t in traces:
         count(ctx, t)
-    ctx.cov['samples'] = [dict(tlc_exported_cases=cases[:2] + [c for c in cases if c['pred'] == 'delegate'][:1]),
+    ctx.cov['samples'] = [dict(tlc_exported_cases=cases[:2] + [c for c in cases if c['pred'] == 'delegate'][:1] + [c for c in cases if c['av']][:1]),
                           dict(recorded_events=samples(t0))]
     ctx.cov['cases_exported_by_tlc'] = len(cases)
     # 3. TLC validates every recorded call against the specification
@@ -229,7 +237,8 @@ def run(ctx):
     with cf.ThreadPoolExecutor(max_workers=2) as ex:
         fo = ex.submit(name_observations, ctx, t0)
         fc = ex.submit(canary, ctx, t0)
-        vlib.judge_traces(ctx, MODULE, CFG, traces, strict=STRICT, shard_lines=600 if quick else 2000, label='Funcs vs OciFuncs')
+        nlines = sum(sum(1 for _ in open(t)) for t in traces)
+        vlib.judge_traces(ctx, MODULE, CFG, traces, strict=STRICT, shard_lines=max(600, nlines // vlib.NCPU + 2), label='Funcs vs OciFuncs')
         for line in fo.result():
             print('OBSERVATION property=%s (not part of the verdict): %s' % (ctx.pid, line))
         fc.result()
@@ -237,7 +246,9 @@ def run(ctx):
                         'errors.Is and interface identity (==) of Go as the observers of error class and identity',
                         'TLC and the Json/IOUtils community modules']
     return vlib.finish(ctx, rule='each case is one *ociregistry.Funcs value built by reflection (every set field holds a recording stub, the '
-                       'constructor records too) and one method call with distinctive arguments; the event carries inputs and projected outputs; '
+                       'constructor records too) and one method call with distinctive arguments, and again with every product of special argument values '
+                       '(empty strings/digest, offset pairs (0,-1) (0,0) (-1,-1) (5,3), chunk sizes 0/-1, resume offset -1, nil/empty reader and contents, zero descriptor); '
+                       ' the event carries inputs and projected outputs; '
                        'TLC accepts it iff it is what Call/Effects of OciFuncs prescribe: stubs run = [own field] with the same arguments and '
                        'results identical to the stub\'s, or no stub run and the error is exactly the constructor\'s / satisfies errors.Is(ErrUnsupported), '
                        'zero values, exactly one yield; a panic has no step')
